@@ -224,7 +224,7 @@ CHECKS["C08"] = dict(
           "problem tightly and the optimised values with a tolerance tied to the optimiser (support)."),
     note=("Trusted: as C05/C03/C01. Uniqueness of the minimiser is now a theorem (C08_objective_min_unique: K+jI spd and a midpoint-concave likelihood term give a strictly convex function-space objective; "
           "C08_fitted_follow_permutation: every minimiser of the reordered problem is the reordered minimiser; instantiated at Coq's R with the generated nn_term - "
-          "C08_nn_fitted_follow_permutation, which adds Epsilon.epsilon_statement through lib/Rstruct.v); existence of a minimiser is not proved; the isometry/scaling laws over lists and the MathComp "
+          "C08_nn_fitted_follow_permutation, which adds Epsilon.epsilon_statement through lib/Rstruct.v); and existence too at R (C08_nn_fitted_values_well_defined: exactly one minimiser, g minimises the reordered problem iff g = P f; Cholesky factor + latent-coordinate existence of thm/AExistThm.v); the isometry/scaling laws over lists and the MathComp "
           "development are otherwise not formally connected; C08 has no Coq correspondence run of its own (the tie is that of C05 and C03). KNOWN "
           "FINDING: the DimensionalityEstimator is not scale-equivariant (poisson_term_scale shows why)."),
     technique="Coq proof (Reals/Coquelicot + MathComp) over generated world-A definitions + real-fit pairs",
